@@ -21,7 +21,7 @@ RULE = ('a real MLLPServer on 127.0.0.1 (ephemeral port, timeout 1 s) with loggi
         'and TCP_NODELAY; (c) 2-8 simultaneous clients released by a barrier, each sending its own message in chunks; (d) payload classes: '
         'registered type, unregistered type, non-HL7 text, HL7-looking text with a broken header, with/without the final segment terminator, '
         'non-ASCII content; (e) faults: first byte not SB, truncated frame then close, truncated frame then stall past the timeout, invalid '
-        'UTF-8, early client close. Oracle per connection: exactly one handler invocation carrying that client\'s text (with or without its '
+        'UTF-8, early client close, frames missing their last 1-3 bytes with the client half-closing its send side. Oracle per connection: exactly one handler invocation carrying that client\'s text (with or without its '
         'last CR), by the handler registered for its MSH-9, else the ERR handler with UnsupportedMessageType (InvalidHL7Message for '
         'non-HL7); the client receives exactly that handler\'s reply and then EOF; fault cases: no invocation and EOF/reset. A wait that '
         'expires is counted as inconclusive, never as a violation. Non-trivial = a case with >= 2 chunks, >= 2 clients or a fault; '
@@ -100,7 +100,7 @@ def frame(payload_text, final_cr=True):
     return SB + body + (CR if final_cr else b'') + EB + CR
 
 
-def send_chunks(port, chunks, pause, close_early=False, stall=0.0, read_timeout=4.0):
+def send_chunks(port, chunks, pause, close_early=False, stall=0.0, read_timeout=4.0, half_close=False):
     """-> (bytes received, 'eof' | 'reset' | 'timeout')"""
     s = socket.socket(socket.AF_INET, socket.SOCK_STREAM)
     s.setsockopt(socket.IPPROTO_TCP, socket.TCP_NODELAY, 1)
@@ -114,6 +114,8 @@ def send_chunks(port, chunks, pause, close_early=False, stall=0.0, read_timeout=
             s.sendall(c)
         if stall:
             time.sleep(stall)
+        if half_close:
+            s.shutdown(socket.SHUT_WR)      # nothing more will be sent; the reply (if any) can still be read
         if close_early:
             s.close()
             return got, 'closed-by-client'
@@ -171,7 +173,10 @@ def run_clients(clients, pause):
     def work(i, c):
         data = frame(c['text'], c.get('final_cr', True))
         fault = c.get('fault')
-        close_early, stall = False, 0.0
+        close_early, stall, half = False, 0.0, False
+        if fault and fault.startswith('missing-last-'):
+            data = data[:-int(fault.rsplit('-', 1)[1])]
+            half = True
         if fault == 'no-start-block':
             data = data[1:]
         elif fault == 'garbage-first-byte':
@@ -190,7 +195,7 @@ def run_clients(clients, pause):
             barrier.wait(5)
         except Exception:
             pass
-        results[i] = send_chunks(port, split(data, c.get('cuts', [])), pause, close_early, stall)
+        results[i] = send_chunks(port, split(data, c.get('cuts', [])), pause, close_early, stall, half_close=half)
 
     ths = [threading.Thread(target=work, args=(i, c)) for i, c in enumerate(clients)]
     for t in ths:
@@ -209,7 +214,8 @@ def run_clients(clients, pause):
         mine = [e for e in entries if uid in e[2]]
         fault = c.get('fault')
         text = c['text']
-        if fault in ('no-start-block', 'garbage-first-byte', 'truncated-then-close', 'truncated-then-stall', 'invalid-utf8'):
+        if fault in ('no-start-block', 'garbage-first-byte', 'truncated-then-close', 'truncated-then-stall', 'invalid-utf8') or \
+                (fault or '').startswith('missing-last-'):
             if mine:
                 out.append(('C16-fault-%s-invoked-a-handler' % fault, '%r -> %r' % (text[:60], mine[:2])))
             if fault != 'truncated-then-close' and got:
@@ -356,7 +362,8 @@ def drawn_cases(draw):
         extra = ['PID|1||%s' % ''.join(draw(st.lists(st.sampled_from('ABC123^~'), max_size=30)))] * draw(st.integers(0, 2))
         fault = None
         if draw(st.integers(0, 7)) == 0:
-            fault = draw(st.sampled_from(['no-start-block', 'garbage-first-byte', 'truncated-then-close', 'invalid-utf8', 'close-before-reading']))
+            fault = draw(st.sampled_from(['no-start-block', 'garbage-first-byte', 'truncated-then-close', 'invalid-utf8', 'close-before-reading',
+                                          'missing-last-1', 'missing-last-2']))
         specs.append({'kind': kind, 'final_cr': draw(st.booleans()), 'fault': fault, 'extra': extra, 'nonascii': draw(st.integers(0, 4)) == 0,
                       'permille': sorted(set(draw(st.lists(st.integers(0, 1000), max_size=4)))),
                       'cut_before_last_byte': draw(st.integers(0, 3)) == 0})
@@ -390,7 +397,7 @@ def run_shard(shard, acc):
             _emit(acc, {'kind': 'clients', 'clients': clients, 'pause': 0.02}, True, 'exhaustive-splits:' + kind)
     elif k == 'faults':
         for fault in ('no-start-block', 'garbage-first-byte', 'truncated-then-close', 'invalid-utf8', 'close-before-reading',
-                      'truncated-then-stall'):
+                      'missing-last-1', 'missing-last-2', 'missing-last-3', 'truncated-then-stall'):
             clients = [make_client(kind, (), True, fault) for kind in ('registered0', 'unregistered', 'non-hl7')]
             clients.append(make_client('registered1', [5, 9]))        # a healthy client in the same batch
             _emit(acc, {'kind': 'clients', 'clients': clients, 'pause': 0.01}, True, 'fault:' + fault)
